@@ -27,6 +27,19 @@ pub enum FileCase {
     /// set `set` (see `name_sets`), core layouts rotated over the chromosomes
     WigNames { set: u32, lay: u32, opts: Opts },
     BedNames { set: u32, lay: u32, opts: Opts },
+    /// entries of 2*10^7 and 3*10^6 bases, stacked (products of length and depth beyond 2^24) on
+    /// chromosomes of 10^8 bases; variant 1 adds entries that reach beyond the chromosome end
+    BedLongSpans { variant: u32, opts: Opts },
+    /// 16-base chromosomes with entries that start inside and end beyond the chromosome end
+    BedBeyondEnd { lay: u32, opts: Opts },
+    /// sections of 8 KiB and more (uncompressed, 1024 items per slot, `n` items on each of two
+    /// chromosomes) written into a destination that accepts at most `cap` bytes per write call
+    WigShortSink { n: u32, cap: u32, opts: Opts },
+    BedShortSink { n: u32, cap: u32, opts: Opts },
+    /// chromosomes as long as u32 allows with items at 2^31 and at the very end (C01/C02 only: the
+    /// other oracles use per-base arrays)
+    WigHuge { opts: Opts },
+    BedHuge { opts: Opts },
     /// text sources larger than the line reader's 8 KiB buffer whose multi-byte characters fall on
     /// every alignment relative to the buffer refills: 400 entries with CJK `rest` fields (bigBed) /
     /// 1 500 values on chromosomes with CJK names (bigWig); `shift` ASCII bytes in front move the
@@ -41,6 +54,21 @@ pub enum FileCase {
     Info(crate::clifam::InfoTool),
     /// `bigbedtobed --zoom` on a file written by the library (C08 tool part)
     ZoomTool(BedCase),
+}
+
+impl FileCase {
+    pub fn into_wig(self) -> Option<WigCase> {
+        match self {
+            FileCase::Wig(c) => Some(c),
+            _ => None,
+        }
+    }
+    pub fn into_bed(self) -> Option<BedCase> {
+        match self {
+            FileCase::Bed(c) => Some(c),
+            _ => None,
+        }
+    }
 }
 
 pub fn expand(c: &FileCase) -> FileCase {
@@ -165,6 +193,88 @@ pub fn expand(c: &FileCase) -> FileCase {
                 opts: opts.clone(),
             })
         }
+        FileCase::BedLongSpans { variant, opts } => {
+            let mut a = vec![(10u32, 20_000_011u32), (30_000_000, 33_000_001), (30_000_000, 33_000_001), (30_000_000, 33_000_001), (40_000_000, 40_000_003)];
+            let mut b = vec![(0u32, 16_777_217u32), (5, 16_777_222), (50_000_000, 99_999_999)];
+            if *variant == 1 {
+                a.push((99_999_990, 100_000_700));
+                b.push((99_999_999, 100_000_001));
+            }
+            FileCase::Bed(BedCase {
+                chroms: [("g1", a), ("g2", b)]
+                    .into_iter()
+                    .enumerate()
+                    .map(|(ci, (n, items))| BChrom { name: n.to_string(), len: 100_000_000, items: items.into_iter().enumerate().map(|(i, (s, e))| BItem { s, e, rest: format!("g{}_{}", ci, i) }).collect() })
+                    .collect(),
+                extra_sizes: vec![],
+                allow_ooo: false,
+                autosql: None,
+                opts: opts.clone(),
+            })
+        }
+        FileCase::BedBeyondEnd { lay, opts } => {
+            let lays: [Vec<(u32, u32)>; 4] = [vec![(10, 20)], vec![(2, 5), (14, 40), (15, 16)], vec![(0, 16), (15, 17), (15, 300)], vec![(3, 3), (12, 18), (12, 18), (13, 100_000)]];
+            FileCase::Bed(BedCase {
+                chroms: vec![
+                    BChrom { name: "c".into(), len: L, items: lays[*lay as usize % 4].iter().enumerate().map(|(i, (s, e))| BItem { s: *s, e: *e, rest: format!("x{}", i) }).collect() },
+                    BChrom { name: "d".into(), len: L, items: lays[(*lay as usize + 1) % 4].iter().enumerate().map(|(i, (s, e))| BItem { s: *s, e: *e, rest: format!("y{}", i) }).collect() },
+                ],
+                extra_sizes: vec![],
+                allow_ooo: false,
+                autosql: None,
+                opts: opts.clone(),
+            })
+        }
+        FileCase::WigShortSink { n, opts, .. } => FileCase::Wig(WigCase {
+            chroms: ["s1", "s2"]
+                .iter()
+                .enumerate()
+                .map(|(ci, name)| WChrom {
+                    name: name.to_string(),
+                    len: 3 * n + 10,
+                    items: (0..*n).map(|i| WItem { s: 3 * i, e: 3 * i + 2, vb: ((i % 251) as f32 * 0.37 + ci as f32).to_bits() }).collect(),
+                })
+                .collect(),
+            extra_sizes: vec![],
+            allow_ooo: false,
+            opts: opts.clone(),
+        }),
+        FileCase::BedShortSink { n, opts, .. } => FileCase::Bed(BedCase {
+            chroms: ["s1", "s2"]
+                .iter()
+                .enumerate()
+                .map(|(ci, name)| BChrom {
+                    name: name.to_string(),
+                    len: 3 * n + 10,
+                    items: (0..*n).map(|i| BItem { s: 3 * i, e: 3 * i + 4, rest: format!("e{}_{}", ci, i) }).collect(),
+                })
+                .collect(),
+            extra_sizes: vec![],
+            allow_ooo: false,
+            autosql: None,
+            opts: opts.clone(),
+        }),
+        FileCase::WigHuge { opts } => FileCase::Wig(WigCase {
+            chroms: huge_chroms()
+                .into_iter()
+                .enumerate()
+                .map(|(ci, (name, len, items))| WChrom { name, len, items: items.into_iter().enumerate().map(|(i, (s, e))| WItem { s, e, vb: (0.5 + ci as f32 + 4.0 * i as f32).to_bits() }).collect() })
+                .collect(),
+            extra_sizes: vec![],
+            allow_ooo: false,
+            opts: opts.clone(),
+        }),
+        FileCase::BedHuge { opts } => FileCase::Bed(BedCase {
+            chroms: huge_chroms()
+                .into_iter()
+                .enumerate()
+                .map(|(ci, (name, len, items))| BChrom { name, len, items: items.into_iter().enumerate().map(|(i, (s, e))| BItem { s, e, rest: format!("h{}_{}", ci, i) }).collect() })
+                .collect(),
+            extra_sizes: vec![],
+            allow_ooo: false,
+            autosql: None,
+            opts: opts.clone(),
+        }),
         FileCase::BedBigText { shift, opts } => FileCase::Bed(BedCase {
             chroms: vec![BChrom {
                 name: "c".into(),
@@ -296,6 +406,57 @@ fn many_zoom_cases(bed: bool) -> Vec<FileCase> {
                         o.compress = compress;
                         o.zoom = Zoom::Manual((2..2 + nz).collect());
                         v.push(if bed { FileCase::Bed(bed_multi(lay % chrom_sets().len(), lay, &o)) } else { FileCase::Wig(wig_multi(lay % chrom_sets().len(), lay, &o)) });
+                    }
+                }
+            }
+        }
+    }
+    v
+}
+
+pub fn huge_chroms() -> Vec<(String, u32, Vec<(u32, u32)>)> {
+    vec![
+        ("h1".to_string(), u32::MAX, vec![(0, 1), (2_147_483_647, 2_147_483_649), (4_294_967_290, u32::MAX)]),
+        ("h2".to_string(), 3_000_000_000, vec![(2_999_999_990, 3_000_000_000)]),
+        ("h3".to_string(), 16, vec![(1, 3), (3, 4), (9, 16)]),
+    ]
+}
+
+pub fn short_sink_cases(bed: bool) -> Vec<FileCase> {
+    let mut v = vec![];
+    for cap in [1000u32, 4096, 32768] {
+        for two_pass in [false, true] {
+            for (compress, ips) in [(false, 1024u32), (true, 8192), (false, 64)] {
+                for inmemory in [true, false] {
+                    let mut o = Opts::base();
+                    o.two_pass = two_pass;
+                    o.compress = compress;
+                    o.ips = ips;
+                    o.inmemory = inmemory;
+                    o.zoom = Zoom::Manual(vec![8]);
+                    v.push(if bed { FileCase::BedShortSink { n: 9000, cap, opts: o } } else { FileCase::WigShortSink { n: 9000, cap, opts: o } });
+                }
+            }
+        }
+    }
+    v
+}
+
+pub fn huge_cases(bed: bool) -> Vec<FileCase> {
+    let mut v = vec![];
+    for (ips, bs) in [(1u32, 2u32), (1024, 256)] {
+        for two_pass in [false, true] {
+            for compress in [true, false] {
+                for zoom in [Zoom::Manual(vec![1 << 20]), Zoom::AutoDefault, Zoom::Manual(vec![])] {
+                    for src in [SrcKind::Iter, SrcKind::ParallelFile] {
+                        let mut o = Opts::base();
+                        o.ips = ips;
+                        o.bs = bs;
+                        o.two_pass = two_pass;
+                        o.compress = compress;
+                        o.zoom = zoom.clone();
+                        o.src = src;
+                        v.push(if bed { FileCase::BedHuge { opts: o } } else { FileCase::WigHuge { opts: o } });
                     }
                 }
             }
@@ -878,12 +1039,21 @@ impl Check for C01 {
         "C01"
     }
     fn cases(&self, tier: Tier) -> Box<dyn Iterator<Item = FileCase> + '_> {
-        wig_family(tier)
+        Box::new(wig_family(tier).chain(huge_cases(false).into_iter()).chain(short_sink_cases(false).into_iter()))
     }
     fn run(&self, case: &FileCase, out: &mut Outcome) {
         let FileCase::Wig(c) = expand(case) else { return };
-        let Some(bytes) = do_write_wig(&c, out) else { return };
+        if let FileCase::WigShortSink { cap, .. } = case {
+            SINK_CAP.with(|x| x.set(Some(*cap as usize)));
+            out.count("files_written_into_a_short_writing_destination", 1);
+        }
+        let written = do_write_wig(&c, out);
+        SINK_CAP.with(|x| x.set(None));
+        let Some(bytes) = written else { return };
         let dec = structure(&bytes, c.chroms.len(), out);
+        if matches!(case, FileCase::WigHuge { .. }) {
+            out.count("files_with_coordinates_up_to_u32_max", 1);
+        }
         let items: usize = c.chroms.iter().map(|c| c.items.len()).sum();
         out.nontrivial = items >= 2
             && dec
@@ -1039,11 +1209,38 @@ impl Check for C02 {
         "C02"
     }
     fn cases(&self, tier: Tier) -> Box<dyn Iterator<Item = FileCase> + '_> {
-        bed_family(tier)
+        let mut spans = vec![];
+        for two_pass in [false, true] {
+            for (ips, bs) in [(1u32, 2u32), (1024, 256)] {
+                let mut o = Opts::base();
+                o.two_pass = two_pass;
+                o.ips = ips;
+                o.bs = bs;
+                o.zoom = Zoom::Manual(vec![4]);
+                for lay in 0..4u32 {
+                    spans.push(FileCase::BedBeyondEnd { lay, opts: o.clone() });
+                }
+                let mut oz = o.clone();
+                oz.zoom = Zoom::Manual(vec![1 << 16]);
+                for variant in 0..2u32 {
+                    spans.push(FileCase::BedLongSpans { variant, opts: oz.clone() });
+                }
+            }
+        }
+        Box::new(bed_family(tier).chain(huge_cases(true).into_iter()).chain(short_sink_cases(true).into_iter()).chain(spans.into_iter()))
     }
     fn run(&self, case: &FileCase, out: &mut Outcome) {
         let FileCase::Bed(c) = expand(case) else { return };
-        let Some(bytes) = do_write_bed(&c, out) else { return };
+        if let FileCase::BedShortSink { cap, .. } = case {
+            SINK_CAP.with(|x| x.set(Some(*cap as usize)));
+            out.count("files_written_into_a_short_writing_destination", 1);
+        }
+        let written = do_write_bed(&c, out);
+        SINK_CAP.with(|x| x.set(None));
+        let Some(bytes) = written else { return };
+        if matches!(case, FileCase::BedHuge { .. }) {
+            out.count("files_with_coordinates_up_to_u32_max", 1);
+        }
         let dec = structure(&bytes, c.chroms.len(), out);
         let items: usize = c.chroms.iter().map(|c| c.items.len()).sum();
         let overlapping = c
@@ -1139,7 +1336,11 @@ pub fn oracle_c06_wig(c: &WigCase, bytes: &[u8], out: &mut Outcome) {
     let mut any_item = false;
     for ch in &c.chroms {
         // weight by length: identical to the per-base statistics
-        tot = merge_stats(&tot, &stats_of(&wig_signal(ch)));
+        if ch.len > 200_000 {
+            tot = merge_stats(&tot, &wig_stats_items(ch));
+        } else {
+            tot = merge_stats(&tot, &stats_of(&wig_signal(ch)));
+        }
         for it in &ch.items {
             any_item = true;
             all_min = all_min.min(it.v() as f64);
@@ -1198,7 +1399,20 @@ pub fn oracle_c06_bed(c: &BedCase, bytes: &[u8], out: &mut Outcome) {
         ..Default::default()
     };
     for ch in &c.chroms {
-        tot = merge_stats(&tot, &stats_of(&bed_signal(ch)));
+        let beyond = ch.items.iter().any(|i| i.e > ch.len);
+        if ch.len > 200_000 || beyond {
+            // no per-base array: sweep over the entries' end points (bases beyond the chromosome
+            // end are covered bases like any others)
+            tot = merge_stats(&tot, &bed_stats_sweep(ch));
+            out.count(if beyond { "bed_chromosomes_with_entries_beyond_the_end" } else { "bed_chromosomes_of_1e8_bases" }, 1);
+        } else {
+            let pb = stats_of(&bed_signal(ch));
+            let sw = bed_stats_sweep(ch);
+            if pb.bases != sw.bases || pb.sum != sw.sum || pb.sumsq != sw.sumsq {
+                out.fail("harness_panic", &[], format!("per-base and sweep references disagree: {:?} vs {:?}", pb, sw));
+            }
+            tot = merge_stats(&tot, &pb);
+        }
     }
     let (min_alts, max_alts) = if tot.bases > 0 {
         (vec![tot.min], vec![tot.max])
@@ -1304,7 +1518,21 @@ impl Check for C06 {
             })
         });
         let tools = crate::clifam::info_tool_cases().into_iter().map(FileCase::Info);
-        Box::new(m.chain(w).chain(b).chain(tools))
+        // large spans, entries beyond the chromosome end, u32-limit chromosomes
+        let mut big = vec![];
+        for o in c06_opts() {
+            for variant in 0..2u32 {
+                big.push(FileCase::BedLongSpans { variant, opts: o.clone() });
+            }
+            for lay in 0..4u32 {
+                big.push(FileCase::BedBeyondEnd { lay, opts: o.clone() });
+            }
+            let mut oz = o.clone();
+            oz.zoom = Zoom::Manual(vec![1 << 20]);
+            big.push(FileCase::WigHuge { opts: oz.clone() });
+            big.push(FileCase::BedHuge { opts: oz });
+        }
+        Box::new(m.chain(w).chain(b).chain(tools).chain(big.into_iter()))
     }
     fn run(&self, case: &FileCase, out: &mut Outcome) {
         match expand(case) {
